@@ -65,6 +65,7 @@ func init() {
 		"time.Unix":         sumTimeUnix,
 		"time.Date":         sumTimeDate,
 		"(time.Time).Weekday": sumWeekday,
+		"(time.Time).Sub":     sumTimeSub,
 		"math/rand.Float32": sumRandFloat32,
 
 		"(*github.com/pip-services3-gox/pip-services3-commons-gox/convert._TStringConverter).ToString":     sumToString,
@@ -656,4 +657,31 @@ func sumParseInt(fr *frame, a []value) value {
 		return tuple{m.ctx.Var(m.nondetName("strconv.ParseInt.val"), SBV64), iface{}}
 	}
 	return tuple{mkInt(64, 0), iface{t: errT, v: Str{Opaque: true}}}
+}
+
+// (time.Time).Sub for wall-clock times without monotonic reading and with
+// concrete nanosecond parts: the exact difference, saturated to the Duration range.
+func sumTimeSub(fr *frame, a []value) value {
+	m := fr.m
+	c := m.ctx
+	t, u := a[0].(structure), a[1].(structure)
+	tw, uw := m.simplify(t[0].(*Term)), m.simplify(u[0].(*Term))
+	if !tw.IsConst() || !uw.IsConst() || tw.U>>63 != 0 || uw.U>>63 != 0 {
+		panic(unsupported("time.Time.Sub with symbolic or monotonic wall field"))
+	}
+	dn := int64(tw.U&(1<<30-1)) - int64(uw.U&(1<<30-1))
+	ts, us := t[1].(*Term), u[1].(*Term)
+	// seconds fit comfortably: |ext| < 2^62 is assumed by construction (mkTime adds a constant to a bounded value)
+	diff := c.Sub(ts, us)
+	if dn != 0 {
+		panic(unsupported("time.Time.Sub with different nanosecond parts"))
+	}
+	const maxSec = 9223372036 // floor((2^63-1)/1e9): the difference is exact up to here, saturated beyond
+	inr := c.And(c.Sle(mkInt(64, -maxSec), diff), c.Sle(diff, mkInt(64, maxSec)))
+	exact := c.Mul(diff, mkInt(64, 1000000000))
+	sat := c.Ite(c.Slt(diff, mkInt(64, 0)), mkInt(64, -1<<63), mkInt(64, 1<<63-1))
+	if !m.branch(inr) {
+		return sat
+	}
+	return exact
 }
